@@ -1,3 +1,4 @@
+#define VP_AMBIENT_ROUNDING 1 // results of this executor may not depend on the dynamic floating-point rounding mode (drv/vp.h)
 // C17 — table-driven CRCs vs bit-by-bit polynomial division, reflection relation, chunked
 // feeding; multiplicative hashes vs their definition, composition and string/length forms.
 #include "../drv/vp.h"
@@ -275,6 +276,42 @@ static void run_case(Tape &t, Ctx &cx)
         {
             free(blk);
             cx.fail(lsb ? "crc:value_lsb" : "crc:value_msb", "crc%d%c(poly %#llx, init %#llx, %zu bytes) = %#llx, bitwise division gives %#llx", w, lsb ? 'l' : 'm', (unsigned long long)poly, (unsigned long long)init, n, (unsigned long long)got, (unsigned long long)want);
+        }
+        // the same call again after the caller has edited the message in place (same argument values, other bytes), and again
+        // after the edit is undone: the value is a function of the bytes, not of the pointer
+        if (n)
+        {
+            size_t at = n - 1 - (init % n) % n;
+            uint8_t keep = blk[at];
+            uint8_t const flip = uint8_t(0x01u << (poly & 7));
+            uint64_t g1 = 0, g2 = 0, g3 = 0;
+            // (three direct calls with identical argument expressions in straight-line code, the way a caller would write it)
+#define VP_THRICE(CALL)            \
+    do {                           \
+        g1 = (CALL);               \
+        blk[at] = uint8_t(keep ^ flip); \
+        g2 = (CALL);               \
+        blk[at] = keep;            \
+        g3 = (CALL);               \
+    } while (0)
+            switch (w)
+            {
+            case 8: VP_THRICE(a_crc8(T.t8, blk, n, a_u8(init))); break;
+            case 16: if (lsb) { VP_THRICE(a_crc16l(T.t16, blk, n, a_u16(init))); } else { VP_THRICE(a_crc16m(T.t16, blk, n, a_u16(init))); } break;
+            case 32: if (lsb) { VP_THRICE(a_crc32l(T.t32, blk, n, a_u32(init))); } else { VP_THRICE(a_crc32m(T.t32, blk, n, a_u32(init))); } break;
+            default: if (lsb) { VP_THRICE(a_crc64l(T.t64, blk, n, init)); } else { VP_THRICE(a_crc64m(T.t64, blk, n, init)); } break;
+            }
+#undef VP_THRICE
+            blk[at] = uint8_t(keep ^ flip);
+            uint64_t w2 = lsb ? ref_lsb(w, poly, blk, n, init) : ref_msb(w, poly, blk, n, init);
+            blk[at] = keep;
+            if (g1 != got) { g3 = g1; }
+            if (g2 != w2 || g3 != got)
+            {
+                free(blk);
+                cx.fail("crc:stale_after_in_place_edit", "crc%d%c over %zu bytes after flipping a bit of byte %zu in place = %#llx (bitwise division %#llx), after undoing the edit %#llx (first value %#llx)", w, lsb ? 'l' : 'm', n, at,
+                        (unsigned long long)g2, (unsigned long long)w2, (unsigned long long)g3, (unsigned long long)got);
+            }
         }
         // pieces with the running value carried over
         {
